@@ -696,3 +696,27 @@ def async_twin(p: dict) -> Optional[dict]:
         if c["lam"]:
             return None
     return q if changed else None
+
+
+def fam_reent_async(tier: str, rng: random.Random) -> Iterator[dict]:
+    """C10/C13/C14: async public methods of an object with invariants awaiting other public methods of the same
+    object (re-entrant for the instance) and of another one; the results must come back as values."""
+    SELF = -1
+    bodies = [[Op("call", 3, SELF, 1)], [Op("call", 3, SELF, 1), Op("call", 4, SELF, 1)], [Op("call", 3, 2, 1)],
+              [Op("call", 4, SELF, 1, when=2)], []]
+    for s2 in bodies:
+        for s3 in ([], [Op("call", 4, SELF, 1)]):
+            for async3 in (True, False):
+                for with_pre in (False, True):
+                    cons = [Con("inv", "default", False, [False, True, True])]
+                    pre = []
+                    if with_pre:
+                        cons.append(Con("pre", "default", False, T3, rv="corofn", script=[Op("call", 3, SELF, 1)]))
+                        pre = [[2]]
+                    fns = [Fn("init", 1, False, ["init"], out=[RetV(0)] * 3, setst=1),
+                           Fn("method", 1, True, ["inv"] + (["chk"] if pre else []), pre, script=s2),
+                           Fn("method", 1, async3, ["inv"], script=s3 if async3 else []),
+                           Fn("method", 1, True, ["inv"])]
+                    obj = [{"cls": 1, "st0": 0}, {"cls": 1, "st0": 0}]
+                    drv = [Op("call", 1, 2, 1), Op("call", 1, 1, 1), Op("call", 2, 1, 2), Op("call", 2, 1, 1), Op("call", 3, 1, 1)]
+                    yield Prog(fns, cons, [], [Cls([1])], obj, [drv], tag="reent-async")
